@@ -97,3 +97,32 @@ Proof.
   apply clusters_cover; [intros x _; apply N.eqb_refl|simpl; lia].
 Qed.
 End Example_clusters.
+
+(* ------------------------------------------------------------------ BatchCluster.batch_dicts *)
+Lemma chunks_fuel_lengths {X} fuel b (l : list X) : 1 <= b -> length l <= fuel ->
+  Forall (fun c => 1 <= length c <= b) (chunks_fuel fuel b l).
+Proof.
+  intros Hb. revert l. induction fuel as [|f IH]; intros l Hl.
+  - destruct l; [constructor|simpl in Hl; lia].
+  - destruct l as [|x r]; [constructor|].
+    change (chunks_fuel (S f) b (x :: r)) with (firstn b (x :: r) :: chunks_fuel f b (skipn b (x :: r))).
+    constructor.
+    + rewrite firstn_length. cbn [length]. lia.
+    + apply IH. rewrite skipn_length. cbn [length] in *. lia.
+Qed.
+
+Theorem batch_dicts_spec {X} b (l : list X) : 1 <= b ->
+  concat (chunks b l) = l /\ Forall (fun c => 1 <= length c <= b) (chunks b l) /\
+  (forall c rest, chunks b l = c :: rest -> rest <> [] -> length c = b).
+Proof.
+  intros Hb. split; [now apply chunks_concat|]. split; [apply chunks_fuel_lengths; [exact Hb|apply le_n]|].
+  unfold chunks. intros c rest E Hr. destruct l as [|x r]; [discriminate|].
+  change (chunks_fuel (length (x :: r)) b (x :: r)) with
+    (firstn b (x :: r) :: chunks_fuel (length r) b (skipn b (x :: r))) in E.
+  inversion E as [[Ec Er]]. rewrite firstn_length.
+  destruct (le_lt_dec b (length (x :: r))) as [Hle|Hlt]; [lia|].
+  exfalso. apply Hr. rewrite <- Er. rewrite skipn_all2 by lia. destruct (length r); reflexivity.
+Qed.
+
+Example batch_dicts_nonvacuous : chunks 2 [1; 2; 3; 4; 5] = [[1; 2]; [3; 4]; [5]] /\ chunks 7 [1; 2] = [[1; 2]] /\ chunks 3 (@nil nat) = [].
+Proof. repeat split; reflexivity. Qed.
